@@ -75,14 +75,18 @@ def pool_findings(repo, work, tier="quick", seed=1, extra_props=()):
         "        out['drift'] += len(r['rejected'])\n"
         "        for f in r['findings']:\n"
         "            out['findings'].setdefault(f[0], []).append('%%s.%%s:%%d %%s' %% (n, s, f[1], f[2]))\n"
+        "import matrix\n"
+        "sw = matrix.extra_c14(%r, %d)\n"
+        "for of in sw.get('other_findings', []): out['findings'].setdefault(of['property'], []).append('sweep N=%%d: %%s' %% (of['N'], of['why']))\n"
+        "for f in sw.get('findings', []): out['findings'].setdefault('C14', []).append('sweep: ' + str(f.get('what')))\n"
         "for p in %r:\n"
-        "    if p in props.EXTRA:\n"
+        "    if p in props.EXTRA and p != 'C14':\n"
         "        ex = props.EXTRA[p](%r, %d)\n"
         "        for f in ex.get('findings', []):\n"
         "            out['findings'].setdefault(p, []).append('extra: ' + str(f.get('what')))\n"
         "        for i in ex.get('infra', []): out['errors'].append(p + ': ' + i[-300:])\n"
         "print('RESULT ' + json.dumps(out))\n"
-    ) % (os.path.join(vlib.VERIF, "lib"), tier, seed, list(extra_props), tier, seed)
+    ) % (os.path.join(vlib.VERIF, "lib"), tier, seed, tier, seed, list(extra_props), tier, seed)
     env = dict(os.environ, VERIF_REPO=repo, VERIF_WORK=work)
     r = subprocess.run([sys.executable, "-c", code], env=env, stdout=subprocess.PIPE, stderr=subprocess.STDOUT, universal_newlines=True)
     for line in r.stdout.splitlines():
